@@ -35,8 +35,8 @@ EDGE_ARRAYS = ("centers", "edges", "boundary_edge_indices", "directions", "edge_
 
 def budget(tier):
     if tier == "quick":
-        return dict(max_examples=260, workers=6, time_s=170, min_cases=80)
-    return dict(max_examples=2500, workers=16, time_s=1200, min_cases=160)
+        return dict(max_examples=360, workers=8, time_s=170, min_cases=100)
+    return dict(max_examples=15000, workers=16, time_s=1200, min_cases=200)
 
 
 @st.composite
